@@ -248,6 +248,33 @@ func runC03(c *core.Check) {
 		})
 		c.Decide((copied || nLit > 0) && badField == "", "synth-keeps-operator", "compileCallExpr", cc.Pos(), "the command-style rewrite copies the node and replaces only X", "the command-style rewrite of an error-wrap call no longer keeps the original node's fields (field "+badField+" is overwritten, or the node is not copied): the operator or the default of `f! args` / `f? args` changes")
 	}
+	// ---------- (4b') once, across overload retries: `expr?` is lowered by statements emitted straight into the enclosing
+	// block (CallInlineClosureStart); compileCallExpr retries the next overload by compiling the arguments again, which
+	// only resets the operand stack — a `?` inside an argument is then emitted, and evaluated, once per attempt
+	if cc := prog.FuncDecl("./cl", "compileCallExpr"); cc != nil {
+		par := parentMap(cc)
+		inLoop := false
+		pos := cc.Pos()
+		ast.Inspect(cc.Body, func(n ast.Node) bool {
+			call, ok := n.(*ast.CallExpr)
+			if !ok {
+				return true
+			}
+			if fn, ok := calleeObj(info, call).(*types.Func); !ok || fn.Name() != "compileCallArgs" {
+				return true
+			}
+			for p := par[call]; p != nil; p = par[p] {
+				if _, ok := p.(*ast.ForStmt); ok {
+					inLoop = true
+					pos = call.Pos()
+				}
+			}
+			return true
+		})
+		inline := strings.Contains(nodeText(fd.Body), "CallInlineClosureStart(")
+		c.Decide(!(inLoop && inline), "once", "compileCallExpr:overload-retry", pos, "arguments are lowered once per call", "compileCallExpr lowers the arguments again for every overload it tries (compileCallArgs inside the retry loop) while `expr?` emits its statements inline into the enclosing block: for `foo(g()?, x => x+1)` whose first overload is rejected, `g()` is emitted — and evaluated — twice (and the first result variable is left unused)")
+	}
+
 	// ---------- (4c) binding of the default: the parser reads the default of `?:` as a unary expression and the printer
 	// parenthesises it below unary precedence — the two siblings must agree, or `a?:1 * 10` changes meaning
 	{
